@@ -50,6 +50,7 @@ type World struct {
 	commonPkg *PkgInfo
 	fullNameMemo map[string]*ssa.Function
 	privMemo map[*ssa.Alloc]bool
+	boxed map[string]bool
 }
 
 type contractErr struct{ file, msg, raw string }
@@ -396,7 +397,7 @@ func (w *World) implementations(it types.Type, m *types.Func) []implInfo {
 		var names []string
 		cands := map[string]implInfo{}
 		for _, pi := range w.pkgs {
-			if !strings.HasPrefix(pi.path, repoModule) {
+			if !strings.HasPrefix(pi.path, repoModule) || isTestSupportPkg(pi.path) {
 				continue
 			}
 			sc := pi.types.Scope()
@@ -408,7 +409,19 @@ func (w *World) implementations(it types.Type, m *types.Func) []implInfo {
 				if _, isIface := tn.Type().Underlying().(*types.Interface); isIface {
 					continue
 				}
-				for _, cand := range []types.Type{tn.Type(), types.NewPointer(tn.Type())} {
+				// closed world: only concrete types that the loaded program actually converts to an interface somewhere
+				var candTypes []types.Type
+				used := w.boxedTypes()
+				for _, ct := range []types.Type{tn.Type(), types.NewPointer(tn.Type())} {
+					if used[typeKey(ct)] && types.Implements(ct, iface) {
+						candTypes = append(candTypes, ct)
+					}
+				}
+				if len(candTypes) == 0 {
+					candTypes = []types.Type{tn.Type(), types.NewPointer(tn.Type())}
+				}
+				both := len(candTypes) == 2 && used[typeKey(candTypes[0])] && used[typeKey(candTypes[1])]
+				for _, cand := range candTypes {
 					if types.Implements(cand, iface) {
 						sel := w.prog.MethodSets.MethodSet(cand).Lookup(m.Pkg(), m.Name())
 						if sel == nil {
@@ -421,7 +434,9 @@ func (w *World) implementations(it types.Type, m *types.Func) []implInfo {
 						k := typeKey(cand)
 						cands[k] = implInfo{cand, fn}
 						names = append(names, k)
-						break
+						if !both {
+							break
+						}
 					}
 				}
 			}
@@ -895,4 +910,32 @@ func addrUsesPrivate(v ssa.Value, depth int) bool {
 		}
 	}
 	return true
+}
+
+// isTestSupportPkg: mocks, fakes and test utilities are not production implementations of an interface.
+func isTestSupportPkg(path string) bool {
+	for _, frag := range []string{"/mock", "_mock", "/fake", "_fake", "test_utils", "/testing", "/env-tests", "/e2e"} {
+		if strings.Contains(path, frag) {
+			return true
+		}
+	}
+	return false
+}
+
+// boxedTypes: concrete types that appear as the operand type of a MakeInterface anywhere in the loaded program.
+func (w *World) boxedTypes() map[string]bool {
+	if w.boxed != nil {
+		return w.boxed
+	}
+	w.boxed = map[string]bool{}
+	for fn := range ssautil.AllFunctions(w.prog) {
+		for _, b := range fn.Blocks {
+			for _, ins := range b.Instrs {
+				if mi, ok := ins.(*ssa.MakeInterface); ok {
+					w.boxed[typeKey(mi.X.Type())] = true
+				}
+			}
+		}
+	}
+	return w.boxed
 }
